@@ -296,6 +296,7 @@ func withWatchdog(f func() Verdict, d time.Duration) (v Verdict, hung bool) {
 	// backstop of 20x for a case that blocks without using the CPU. A plain wall-clock limit
 	// raised a false alarm on a loaded machine (DESIGN 9.4).
 	tid := <-tidCh
+	cpu0, _ := threadCPU(tid) // the OS thread may have run earlier cases: only the increase counts
 	start := time.Now()
 	tick := time.NewTicker(250 * time.Millisecond)
 	defer tick.Stop()
@@ -305,7 +306,7 @@ func withWatchdog(f func() Verdict, d time.Duration) (v Verdict, hung bool) {
 			return v, false
 		case <-tick.C:
 			cpu, ok := threadCPU(tid)
-			if (ok && cpu > d) || (!ok && time.Since(start) > d) || time.Since(start) > 20*d {
+			if (ok && cpu-cpu0 > d) || (!ok && time.Since(start) > d) || time.Since(start) > 20*d {
 				return Verdict{}, true
 			}
 		}
